@@ -273,6 +273,24 @@ void t_datatable(FuzzedDataProvider& f) {
   try { ostringstream out; DataTable::write(*dt, out, sep, align); } catch (bpp::Exception&) { ++g_rejected; }
 }
 
+// known finding C16-simple-empty-values: a 'Simple' description whose 'values' argument holds a list without any element
+// ("values=()", "values=(,)", any two characters) builds a SimpleDiscreteDistribution with 0 classes, whose base class sizes
+// its bounds vector with nbClasses - 1: std::length_error instead of the library's exception
+bool simpleWithEmptyValues(const string& s) {
+  if (s.find("Simple") == string::npos) return false;
+  auto ws = [](char ch) { return isspace(static_cast<unsigned char>(ch)) != 0; };
+  for (size_t q = s.find("values"); q != string::npos; q = s.find("values", q + 1)) {
+    size_t d = q + 6; while (d < s.size() && ws(s[d])) ++d;
+    if (d >= s.size() || s[d] != '=') continue;
+    ++d;
+    int depth = 0; size_t e = d;   // the value runs to the next ',' outside brackets or to the bracket that closes the argument list
+    for (; e < s.size(); ++e) { char ch = s[e]; if (ch == '(') ++depth; else if (ch == ')') { if (depth == 0) break; --depth; } else if (ch == ',' && depth == 0) break; }
+    size_t a = d, b = e; while (a < b && ws(s[a])) ++a; while (b > a && ws(s[b - 1])) --b;
+    if (b - a >= 2 && s.find_first_not_of(',', a + 1) >= b - 1) return true;   // nothing but ',' between the first and the last character
+  }
+  return false;
+}
+
 void t_distformat(FuzzedDataProvider& f) {
   bool parseArgs = f.ConsumeBool();
   string s = f.ConsumeRemainingBytesAsString();
@@ -285,6 +303,7 @@ void t_distformat(FuzzedDataProvider& f) {
     size_t e = d; while (e < s.size() && isdigit(static_cast<unsigned char>(s[e]))) ++e;
     if (e - d >= 3) { ++g_excluded; return; }
   }
+  if (simpleWithEmptyValues(s) && known("C16-simple-empty-values")) return;
   try {
     BppODiscreteDistributionFormat fmt(false);
     auto d = fmt.readDiscreteDistribution(s, parseArgs);
